@@ -201,9 +201,10 @@ class G:
             return int_lit(self.draw, 0, size - 1)
         cands = [n for n, (lo, hi) in self.bounded.items()
                  if lo >= 0 and hi < size and n in self.visible()]
-        if cands and r < 90:
-            n = self.pick(sorted(cands))
-            return M.Var(n, INT)
+        if r < 90:
+            if cands:
+                return M.Var(self.pick(sorted(cands)), INT)
+            return int_lit(self.draw, 0, size - 1)
         if r < 95:
             e = self.expr(INT, 1)
             # a *literal* index is checked statically (C13): keep it in range;
